@@ -8,14 +8,15 @@ META = {
     "level": "proof",
     "design_ref": "DESIGN.md section 8, C02; Appendix A 'Glif writer'",
     "technique": "Coq proofs over executable models of the glif writer (tree level) and reader: per-component codec "
-                 "lemmas, exact characterisation of the lib re-indentation defect, refutation witnesses; differential "
+                 "lemmas, dictionary algebra of the lib, composite round-trip theorem, exact characterisation of the lib re-indentation defect, refutation witnesses; differential "
                  "correspondence of the encoder's bytes (read by expat) and of the read-back glyph with the models",
     "text": "Gallina model of Glyph::encode_xml_impl producing the event tree a reader gets back (element / attribute "
             "order and presence conditions, colour and code-point formatting, object libs under public.objectLibs, "
             "recursive key sorting, line-by-line lib re-indentation), composed with the reader model of C12. "
             "Kernel-checked: the codecs of contours/points, anchors, guidelines, components, images invert under the "
-            "library hypotheses; the composite round trip holds for every valid glyph without libs "
-            "(C02_roundtrip_partial; glyphs with libs are covered by the correspondence only); re-indentation is the "
+            "library hypotheses; dump_object_libs followed by load_object_libs is the identity (C02_object_libs_roundtrip); the "
+            "composite round trip holds for every valid glyph outside F3, glyph lib and object libs included, up to the "
+            "writer's recursive key sorting (C02_roundtrip); base64 data reads back (proved, no hypothesis); re-indentation is the "
             "identity exactly when no lib string or key holds a line break (or the indent width is 0); notes survive "
             "exactly when trimmed and non-empty; witnesses refute the full-strength statements. Every run compares, for generated glyphs x write options, the bytes norad wrote "
             "(parsed by Python's expat) with the model's tree, and parse_raw of those bytes with the model's re-read.",
